@@ -896,6 +896,14 @@ class Magnitude(Number):
         )
 
 
+def _strftime(value, fmt):
+    """
+    strftime with a zero-padded four digit year: %Y is not padded for
+    years below 1000 on every platform, while strptime requires four digits.
+    """
+    return value.strftime(fmt.replace('%Y', '%04d' % value.year))
+
+
 class Date(Number):
     """Date parameter of datetime or date type."""
 
@@ -946,7 +954,7 @@ class Date(Number):
             return None
         if not isinstance(value, (dt.datetime, dt.date)): # i.e np.datetime64
             value = value.astype(dt.datetime)
-        return value.strftime("%Y-%m-%dT%H:%M:%S.%f")
+        return _strftime(value, "%Y-%m-%dT%H:%M:%S.%f")
 
     @classmethod
     def deserialize(cls, value):
@@ -997,7 +1005,7 @@ class CalendarDate(Number):
     def serialize(cls, value):
         if value is None:
             return None
-        return value.strftime("%Y-%m-%d")
+        return _strftime(value, "%Y-%m-%d")
 
     @classmethod
     def deserialize(cls, value):
@@ -1406,9 +1414,9 @@ class DateRange(Range):
                 v = v.astype(dt.datetime)
             # Separate date and datetime to deserialize to the right type.
             if type(v) is dt.date:
-                v = v.strftime("%Y-%m-%d")
+                v = _strftime(v, "%Y-%m-%d")
             else:
-                v = v.strftime("%Y-%m-%dT%H:%M:%S.%f")
+                v = _strftime(v, "%Y-%m-%dT%H:%M:%S.%f")
             serialized.append(v)
         return serialized
 
@@ -1466,7 +1474,7 @@ class CalendarDateRange(Range):
         if value is None:
             return None
         # As JSON has no tuple representation
-        return [v.strftime("%Y-%m-%d") for v in value]
+        return [_strftime(v, "%Y-%m-%d") for v in value]
 
     @classmethod
     def deserialize(cls, value):
